@@ -166,7 +166,7 @@ theorem mergedOf_ren (A : List (String × String)) :
     the object is built from the attributes under their stored names (`renRes`) -/
 theorem parseFsElem_flat (K : Consts) (ts : TypeSystem) (tsIdx : Nat) (hp : Heap) (e : XElem) (t : TypeRec) (x : Int)
     (A : List (String × String))
-    (ht : getType ts e.ty = .ok t) (hk : e.kids = []) (ha : e.attrs = (ID, showInt x) :: A)
+    (ht : getTypeExact ts e.ty = .ok t) (hk : e.kids = []) (ha : e.attrs = (ID, showInt x) :: A)
     (hkeys : ∀ p ∈ A, p.1 ≠ ID ∧ renRes p.1 ∈ ctorFields t)
     (hsofa : ∀ s, alistGet? A "sofa" = some s → (parseInt s).isSome = true) :
     parseFsElem K ts tsIdx hp e =
